@@ -313,8 +313,12 @@ fn run_cli(op: &Value, file: &mut String, cfg: &Cfg, cli: Option<&str>, events: 
     let explicit = |k: &str| !op.get("omit").and_then(|x| x.as_array()).map(|a| a.iter().any(|y| y == k)).unwrap_or(false);
     let zone_min = op.get("now_zone_min").and_then(|x| x.as_i64()).unwrap_or(0);
 
+    // "odd": option combinations and failures no listed property speaks about (Layer I / Conform!ConfCliOdd only):
+    // "both_lists" (--list and --list-all together), "json_clean" (--list-json without a list mode: mode = clean, json = true),
+    // "missing_input" (--filename names a file that does not exist), "bad_outdir" (--output inside a directory that does not exist)
+    let odd = s("odd", "");
     let in_path = dir.join("in.src");
-    let out_path = dir.join("out.src");
+    let out_path = if odd == "bad_outdir" { dir.join("no-such-dir").join("out.src") } else { dir.join("out.src") };
     let conf_path = dir.join("targets.conf");
     let mut args: Vec<String> = vec![];
     // "argform": "sep" passes option values as separate arguments (`--opt value`) where the value cannot be taken
@@ -329,7 +333,9 @@ fn run_cli(op: &Value, file: &mut String, cfg: &Cfg, cli: Option<&str>, events: 
         }
     };
     if input == "file" {
-        std::fs::write(&in_path, file.as_bytes()).unwrap();
+        if odd != "missing_input" {
+            std::fs::write(&in_path, file.as_bytes()).unwrap();
+        }
         args.push("--filename".into());
         args.push(in_path.to_string_lossy().into());
     }
@@ -395,7 +401,12 @@ fn run_cli(op: &Value, file: &mut String, cfg: &Cfg, cli: Option<&str>, events: 
         }
     }
     match mode.as_str() {
-        "list" => args.push("--list".into()),
+        "list" => {
+            args.push("--list".into());
+            if odd == "both_lists" {
+                args.push("--list-all".into());
+            }
+        }
         "list_all" => args.push("--list-all".into()),
         _ => {}
     }
@@ -461,7 +472,7 @@ fn run_cli(op: &Value, file: &mut String, cfg: &Cfg, cli: Option<&str>, events: 
                 "stderr_head": String::from_utf8_lossy(&o.stderr).chars().take(200).collect::<String>(),
                 "has_outfile": has_out, "outfile": outc,
                 "has_infile": has_in, "infile_after": inc,
-                "payload_json_ok": pj_ok, "payload_items": pj_items,
+                "payload_json_ok": pj_ok, "payload_items": pj_items, "odd": odd,
             }));
         }
         Err(e) => events.push(json!({"ev": "ToolError", "what": format!("spawn failed: {}", e)})),
